@@ -228,7 +228,7 @@ def run(run):
     cases, impl, mod = [], [], []
     import time as _time
     for i in range(n):
-        if run.oracle_fail and _time.time() - run.t0 > 60:
+        if any(not lib.matches_known("C07", f) for f in run.oracle_fail) and _time.time() - run.t0 > 60:
             run.notes.append("stopped after %d sessions: a violation was found and the run is slow" % i)
             break
         label = "s%d" % i
